@@ -15,7 +15,9 @@ from vcommon import scratch_dir, NCPU
 LEVEL = "exploration"
 
 SIGMA = ["info", "x", "é", "名", "😀", "!", "(", ")", '"', "\\", ",", ";", "=", ":", "::", "target:", "ref", "7", "[ref: 7]", " ", "\n", "\r\n",
-         "//", "/*", "*/", "breadlog:ignore", "\u2028"]
+         "//", "/*", "*/", "breadlog:ignore", "\u2028",
+         # integers beyond u32 / u64 / u128: arithmetic on IDs and positions must not overflow or unwrap
+         "123456789012345678901234567890123456789012", "[ref: 99999999999999999999]"]
 
 SKELETONS = [
     ["info", "!", "(", '"', "x", '"', ")", ";"],
@@ -435,7 +437,7 @@ def run(tier, v):
     n = sum(o["cases"] for o in outs)
     v.count(n)
     v.coverage["distinct_nontrivial"] += sum(o["with_entries"] for o in outs)
-    v.subspace("every token sequence of length 1..%d over the 27-token alphabet x {unstructured, structured}, in-process" % maxlen, n,
+    v.subspace("every token sequence of length 1..%d over the 29-token alphabet x {unstructured, structured}, in-process" % maxlen, n,
                exhaustive=True, sequences_with_entries=sum(o["with_entries"] for o in outs), max_parse_us=max(o["max_us"] for o in outs))
     for o in outs:
         for s, p in o["panics"]:
